@@ -15,21 +15,21 @@ Definition n_oerr (o : option err) : N := match o with None => 0 | Some e => 1 +
 Definition n_c2 (c : cst2) : N :=
   match c with CSel => 0 | CWaitDone => 1 | CAbortWait e => 2 + n_err e
              | CRet (CResp b) => 8 + n_bool b | CRet (CErr e) => 10 + n_err e end.
-Definition n_d2 (d : dst2) : N := match d with DAcquire => 0 | DHdr => 1 | DBody => 2 | DWait => 3 | DExit => 4 end.
+Definition n_d2 (d : dst2) : N := match d with DAcquire => 0 | DHdr => 1 | DBody => 2 | DWait => 3 | DExit => 4 | DExpect => 5 end.
 Definition n_rst (r : option rstk) : N := match r with None => 0 | Some RstCancel => 1 | Some RstNoError => 2 end.
 Definition h2_code (s : h2) : positive :=
-  N.succ_pos (mix [(n_c2 (c2 s), 16); (n_d2 (d2 s), 5); (n_ocause (ctx2 s), 4); (n_oerr (abort2 s), 7);
+  N.succ_pos (mix [(n_c2 (c2 s), 16); (n_d2 (d2 s), 6); (n_ocause (ctx2 s), 4); (n_oerr (abort2 s), 7);
                    (n_bool (sent_hdr s), 2); (n_bool (sent_end s), 2); (n_obool (resp2 s), 3);
                    (n_bool (peer_end s), 2); (n_rst (rst2 s), 3); (n_bool (bclosed2 s), 2);
                    (n_bool (donec2 s), 2); (n_bres (pipe2 s), 12); (n_bool (failed2 s), 2)]).
 Local Close Scope N_scope.
 
 Definition labels2 : list label2 :=
-  [YAcquired; YHdrWritten; YBodyWritten; YResp true; YResp false; YData; YEnd; YReadEOF; YPeerRst;
+  [YAcquired; YHdrWritten; YHdrExpect; Y100; YBodyWritten; YResp true; YResp false; YData; YEnd; YReadEOF; YPeerRst;
    YCancel CCanceled; YCancel CDeadline; YCancel CTimeout] ++ internals2.
 
 Lemma labels2_all : forall l, In l labels2.
-Proof. intros l. unfold labels2, internals2. destruct l as [| | |[]| | | | |[]| | | | | | | | |]; cbn; tauto. Qed.
+Proof. intros l. unfold labels2, internals2. destruct l as [| | | | |[]| | | | |[]| | | | | | | | | |]; cbn; tauto. Qed.
 
 Definition M2 (hb : bool) : smap h2 :=
   match explore h2 label2 (step2 hb) h2_code h2_eqb labels2 400 init2 with
@@ -88,9 +88,9 @@ Definition progress2_b (hb : bool) (s : h2) : bool :=
       (returned2 s || existsb (enabled2 hb s) [JResp; JAbort; JCtx; JDone; JDoneCtx] ||
        (* blocked in waitDone only until doRequest, which can move, has finished *)
        existsb (enabled2 hb s) [KCtx; KAbort; KPeerEnd]) &&
-      (exited2 s || existsb (enabled2 hb s) [KCtx; KAbort; KPeerEnd] ||
-       (* writeRequestBody is woken by the abort the caller's ctx.Done case performs *)
-       enabled2 hb s JCtx || returned2 s)
+      (* doRequest itself can always move on: every blocking point watches the context, the wait for
+         flow-control credit through the abort the context triggers (KCtxAbort) *)
+      (exited2 s || existsb (enabled2 hb s) [KCtx; KAbort; KPeerEnd; KCtxAbort])
   end.
 Lemma progress2_all : forall hb, allM h2 (progress2_b hb) (M2 hb) = true.
 Proof. all_hb. Qed.
@@ -155,18 +155,16 @@ Qed.
 
 Theorem h2_cancel_progress : forall hb s, reach2 hb s -> (exists c, ctx2 s = Some c) ->
   (returned2 s = false -> exists l, In l [JResp; JAbort; JCtx; JDone; JDoneCtx; KCtx; KAbort; KPeerEnd] /\ step2 hb s l <> None) /\
-  (exited2 s = false -> returned2 s = false -> exists l, In l [KCtx; KAbort; KPeerEnd; JCtx] /\ step2 hb s l <> None).
+  (exited2 s = false -> exists l, In l [KCtx; KAbort; KPeerEnd; KCtxAbort] /\ step2 hb s l <> None).
 Proof.
   intros hb s R [c C]. pose proof (inv2 progress2_b progress2_all hb s R) as H. unfold progress2_b in H.
   rewrite C in H. apply andb_prop in H as [H1 H2]. split.
   - intros NR. rewrite NR in H1. cbn [orb] in H1. apply orb_prop in H1 as [H1|H1];
       apply existsb_exists in H1 as [l [I E]]; exists l; (split; [cbn in I |- *; tauto|]);
       unfold enabled2 in E; destruct (step2 hb s l); discriminate.
-  - intros NE NR. rewrite NE, NR in H2. cbn [orb] in H2. rewrite orb_false_r in H2.
-    apply orb_prop in H2 as [H2|H2].
-    + apply existsb_exists in H2 as [l [I E]]. exists l. split; [cbn in I |- *; tauto|].
-      unfold enabled2 in E. destruct (step2 hb s l); discriminate.
-    + exists JCtx. split; [cbn; tauto|]. unfold enabled2 in H2. destruct (step2 hb s JCtx); discriminate.
+  - intros NE. rewrite NE in H2. cbn [orb] in H2.
+    apply existsb_exists in H2 as [l [I E]]. exists l. split; [exact I|].
+    unfold enabled2 in E. destruct (step2 hb s l); discriminate.
 Qed.
 
 Example h2_nonvacuous :
